@@ -436,4 +436,33 @@ def SL.walkFrom (cfg : Cfg K V) (s : SL K V) (key : K) : Option (List (K × V)) 
   | none => none
   | some h => s.walkNodes (s.lv.headD []).length h
 
+/-! ### held `iter.Seq2` values
+
+`s.All()` returns a closure over the OBJECT `s` (not over a snapshot of its towers): the value
+carries no data of its own, and every time it is ranged it reads `s.len` and `s.head.next[0]`
+afresh.  A held Seq is therefore modelled by nothing at all; ranging it is `SL.range` on the
+state the list has when the loop starts.  The functions below are the ways the harness ranges a
+held Seq, written as its loops run. -/
+
+/-- `for k, v := range seq { …; break after j }`, then `for k, v := range seq { … }`. -/
+def SL.seqTwice (cfg : Cfg K V) (s : SL K V) (j : Nat) : Option (List (K × V) × List (K × V)) :=
+  match s.range cfg j, s.range cfg 0 with
+  | some xs, some ys => some (xs, ys)
+  | _, _ => none
+
+/-- `for a := range seq { n := 0; for range seq { n++ }; …; break after j }`: the outer
+elements seen and the inner counts. -/
+def SL.seqNest (cfg : Cfg K V) (s : SL K V) (j : Nat) : Option (List (K × V) × List Nat) :=
+  match s.range cfg j with
+  | none => none
+  | some outer =>
+    (outer.mapM fun _ => (s.range cfg 0).map List.length).map fun cs => (outer, cs)
+
+/-- Two `iter.Pull2` cursors on the same Seq, advanced alternately; cursor 1 is stopped after
+`a` values (`a = 0`: runs to the end).  Each cursor runs its own traversal of the closure. -/
+def SL.pull2 (cfg : Cfg K V) (s : SL K V) (a : Nat) : Option (List (K × V) × List (K × V)) :=
+  match s.range cfg a, s.range cfg 0 with
+  | some xs, some ys => some (xs, ys)
+  | _, _ => none
+
 end Golib.C02
